@@ -130,6 +130,8 @@ class LabelProbabilityInjector(Injector):
         """
         # handle data type
         ret, (target_col,) = self._preprocess(data, target_col)
+        # work on a copy: the caller's dictionary is not modified
+        class_probabilities = dict(class_probabilities)
 
         # determine all unique classes and classes not specified in args
         all_classes = np.unique(ret[:, target_col])
@@ -170,6 +172,10 @@ class LabelProbabilityInjector(Injector):
             # append to grouped array and corresponding distribution
             sample_idxs_grouped.extend(cls_idx)
             self._p_distribution.extend(np.ones(cls_idx.shape[0]) * p_individual)
+
+        # an empty window has nothing to resample
+        if len(self._p_distribution) == 0:
+            return self._postprocess(ret)
 
         # if classes skipped, ensure probability distribution adds to 1
         p_leftover = (1 - sum(self._p_distribution)) / len(self._p_distribution)
